@@ -4,6 +4,7 @@ CONSTANTS
   R1s = {2}
   R2s = {5}
   Offs = {0}
+  ExtraFK = {}
 INIT Init
 NEXT Next
 CHECK_DEADLOCK FALSE
